@@ -385,9 +385,26 @@ func C06(p *load.Prog, r *oblig.Run) {
 					}
 					found++
 					v, _ := constant.Int64Val(cst.Value)
+					// the warning is built on the side of the test on which the result IS EntirelyBefore (== taken, or != not taken)
+					sideOK := false
+					for _, r2 := range *bo.Referrers() {
+						iff, isIf := r2.(*ssa.If)
+						if !isIf {
+							continue
+						}
+						eqSide := iff.Block().Succs[0]
+						if bo.Op == token.NEQ {
+							eqSide = iff.Block().Succs[1]
+						}
+						for _, wc := range su.Calls(cons) {
+							if cal := wc.Common().StaticCallee(); cal != nil && strings.Contains(cal.Name(), "EventOrderWarning") && (eqSide == wc.Block() || eqSide.Dominates(wc.Block())) && len(eqSide.Preds) == 1 {
+								sideOK = true
+							}
+						}
+					}
 					r.Check("R06.e", "compare-result test in incorrectEventOrderWarnings", p.Pos(bo.Pos()),
-						"constant the event-order warning tests", bo.Op == token.EQL && v == cval["EntirelyBefore"],
-						"== EntirelyBefore", fmt.Sprintf("event-order warning tests %s %s instead of == EntirelyBefore", bo.Op, cname[v]))
+						"constant the event-order warning tests", sideOK && v == cval["EntirelyBefore"],
+						"the warning is built where the result == EntirelyBefore", fmt.Sprintf("event-order warning tests %s %s and builds the warning on the wrong side (or with another constant) instead of where the result == EntirelyBefore", bo.Op, cname[v]))
 				}
 			}
 		}
